@@ -322,7 +322,8 @@ func firstDiff(a, b []byte) int {
 }
 
 func genOp(t *rapid.T) Op {
-	k := rapid.SampledFrom([]string{"new", "new", "new", "fetch", "fetch", "fetch", "fetch", "write", "write", "write", "unpin", "unpin", "unpin", "unpin",
+	k := rapid.SampledFrom([]string{"new", "new", "new", "new", "fetch", "fetch", "fetch", "fetch", "fetch", "write", "write", "write",
+		"unpin", "unpin", "unpin", "unpin", "unpin", "unpin", "unpin", "unpin", "unpin",
 		"flush", "flushall", "flushdirty", "dealloc", "dealloc-nowait", "dealloc-nowait-pinned", "reopen"}).Draw(t, "k")
 	op := Op{K: k, T: rapid.IntRange(0, 30).Draw(t, "t")}
 	switch k {
@@ -339,8 +340,9 @@ func genOp(t *rapid.T) Op {
 }
 
 func genCase(t *rapid.T, noNoWait bool) *Case {
-	c := &Case{N: rapid.IntRange(2, 12).Draw(t, "n"), File: rapid.IntRange(0, 3).Draw(t, "file") == 0}
-	c.Ops = rapid.SliceOfN(rapid.Custom(genOp), 5, 120).Draw(t, "ops")
+	c := &Case{N: rapid.SampledFrom([]int{2, 2, 3, 3, 3, 4, 4, 5, 6, 8, 12}).Draw(t, "n"), File: rapid.IntRange(0, 3).Draw(t, "file") == 0}
+	nops := rapid.SampledFrom([]int{5, 12, 25, 50, 80, 120}).Draw(t, "nops") // rapid's own slice lengths are mostly short
+	c.Ops = rapid.SliceOfN(rapid.Custom(genOp), nops, 120).Draw(t, "ops")
 	if noNoWait {
 		for i := range c.Ops {
 			if c.Ops[i].K == "dealloc-nowait" || c.Ops[i].K == "dealloc-nowait-pinned" {
